@@ -66,7 +66,11 @@ Record ModelP : Type := mkModelP {
 
 (* nesting depth of graphs (fuel for the recursive functions) *)
 Definition attrv_depth {G} (d : G -> nat) (v : AttrV G) : nat :=
-  match v with AG g => d g | AGs l => list_max (map d l) | _ => O end.
+  match v with
+  | AG g => d g | AGs l => list_max (map d l)
+  | ANone => 1%nat      (* a GRAPH attribute without `g` deserializes the default (empty) graph: depth 1 *)
+  | _ => O
+  end.
 Definition node_depth {G} (d : G -> nat) (n : NodeP G) : nat :=
   list_max (map (fun a => attrv_depth d (a_val a)) (n_attrs n)).
 Fixpoint gdepth (g : GraphP) : nat :=
